@@ -9,7 +9,10 @@
      core/task/task.go               (BuildPropertyMap: the chans.* part of the CONFIGURE payload)
      core/task/taskclass/class.go    (targets of task-template connect blocks are cleared)
    Definitions only.  The port / IPC path handed to an inbound channel is an uninterpreted
-   allocation (an oracle indexed by the position of the channel), see props.d/C13.json. *)
+   allocation (an oracle indexed by the position of the channel), see props.d/C13.json.
+   The model describes the code after the repairs C13-a (a channel with a target of its own is
+   neither allocated nor registered), C13-b (an inbound channel ToFMQMap refuses fails the
+   configuration) and C13-c (one alias declared twice in one task is refused). *)
 From Verif Require Export Common.
 Open Scope N_scope.
 
